@@ -753,6 +753,15 @@ class SimFuture:
             self._value = self._run()
         except BaseException as exc:  # noqa: BLE001
             self._exc = exc
+        self._complete()
+
+    def _execute(self) -> None:
+        """Body of the unit that carries this future's task (thread executors)."""
+        if self._state != "PENDING":
+            return
+        self._run_now()
+
+    def _complete(self) -> None:
         self._state = "FINISHED"
         _COMPLETION_SEQ[0] += 1
         self._seq = _COMPLETION_SEQ[0]
@@ -763,8 +772,9 @@ class SimFuture:
                 pass
 
     def _drive(self) -> None:
-        while self._state == "PENDING":
-            self._ex._step()
+        while self._state in ("PENDING", "RUNNING"):
+            if not self._ex._step():
+                raise SimHarnessError("future can never complete")
 
     def result(self, timeout: Any = None) -> Any:
         if self._state == "CANCELLED":
@@ -885,8 +895,9 @@ class SimExecutor(_SimExecutorBase):
 
 class SimThreadExecutor(_SimExecutorBase):
     """Facade for concurrent.futures.ThreadPoolExecutor (and multiprocessing.pool.ThreadPool through SimThreadPool):
-    tasks share the caller's memory, as threads do, and run one at a time, each to completion, in the order the tape
-    decides. Granularity is the task: interleavings *inside* two tasks are not explored (stated in the evidence)."""
+    every submitted call is a unit of the session's thread scheduler (sim/simthreads.py): real threads, one runnable at
+    a time, pre-empted at lock operations and at tape-chosen source lines of the system under test; at most
+    max_workers tasks of one executor are in progress, started in submission order."""
     _kind = "thread"
 
     def __init__(self, max_workers: Optional[int] = None, thread_name_prefix: str = "",
@@ -895,50 +906,45 @@ class SimThreadExecutor(_SimExecutorBase):
             raise ValueError("max_workers must be greater than 0")
         self._init_base(max_workers or 4)
         env = self._env
-        self._pool_no = env.next_pool_no()
-        self._tape = env.pool_tape(self._pool_no)
-        self._tape_pos = 0
+        self._n = int(max_workers or min(32, env.cpu_count + 4))
+        self._sched = env.threads
+        self._sched.executors.append(self)
         self._initializer = initializer
         self._initargs = initargs
         self._initialised = False
-        env.log("pool_create", pool=self._pool_no, n=int(max_workers or 4), threads=True)
+        if env.in_worker is not None:
+            env.stats["unsimulated_concurrency"] += 1
+            env.log("escape", what="thread pool inside a pool worker")
 
-    def _choose(self, n: int, what: str) -> int:
-        if n <= 1:
-            return 0
-        raw = self._tape[self._tape_pos] if self._tape_pos < len(self._tape) else 0
-        self._tape_pos += 1
-        c = raw % n
-        self._env.log("choice", pool=self._pool_no, what=what, n=n, c=c)
-        self._env.stats["choices"] += 1
-        return c
+    def _step(self) -> bool:
+        return self._sched.step()
 
     def submit(self, fn: Callable, *args: Any, **kwargs: Any) -> SimFuture:
         if self._shut:
             raise RuntimeError("cannot schedule new futures after shutdown")
-        self._env.log("pool_call", pool=self._pool_no, api="thread_submit")
 
         def run() -> Any:
             if not self._initialised:
                 self._initialised = True
                 if self._initializer is not None:
                     self._initializer(*self._initargs)
-            self._env.stats["sched_steps"] += 1
             return fn(*args, **kwargs)
 
         fut = SimFuture(self, run)
         self._futs.append(fut)
+        self._sched.add(fut._execute, group=self, capacity=self._n, api="thread_submit")
         return fut
+
+    def _finish_submitted(self) -> None:
+        self._sched.run_until(lambda: all(f.done() for f in self._futs))
 
     def shutdown(self, wait: bool = True, cancel_futures: bool = False) -> None:
         self._shut = True
         if cancel_futures:
             for f in self._futs:
                 f.cancel()
-        self._drain()
-        order = [f._seq for f in self._futs if f._seq >= 0]
-        self._env.log("schedule", pool=self._pool_no, digest=hashlib.sha256(json.dumps(order).encode()).hexdigest()[:16],
-                      n_chunks=len(order), in_order=(order == sorted(order)), proxy_calls=0, interleaved=False)
+        if wait:
+            self._finish_submitted()   # with wait=False the submitted work finishes later (at the latest when the operation ends)
 
 
 class SimThreadPool:
@@ -1085,74 +1091,3 @@ def sim_wait(fs: Iterable[Any], timeout: Any = None, return_when: str = "ALL_COM
             break
     done = {f for f in fs if f.done()}
     return DoneAndNotDone(done, set(fs) - done)
-
-
-
-
-class SimThreads:
-    """threading.Thread under the task-granular scheduler: start() registers the thread, its run() is carried out -
-    on the caller's stack, to completion - when the scheduler picks it: at a join(), at a get() on an empty
-    queue.Queue, or at the end of the operation. The order among registered threads is the tape's."""
-
-    def __init__(self, env: Any) -> None:
-        self.env = env
-        self.pending: List[Any] = []
-        self.pool_no: Optional[int] = None
-        self.tape: List[int] = []
-        self.pos = 0
-        self.order: List[int] = []
-        self.n_started = 0
-
-    def start(self, th: Any) -> None:
-        if getattr(th, "_sim_state", None) is not None:
-            raise RuntimeError("threads can only be started once")
-        if self.pool_no is None:
-            self.pool_no = self.env.next_pool_no()
-            self.tape = self.env.pool_tape(self.pool_no)
-            self.pos = 0
-            self.env.log("pool_create", pool=self.pool_no, n=0, threads=True, raw=True)
-        th._sim_state = "pending"
-        th._sim_no = self.n_started
-        self.n_started += 1
-        self.pending.append(th)
-        self.env.log("pool_call", pool=self.pool_no, api="thread_start")
-
-    def step(self) -> bool:
-        if not self.pending:
-            return False
-        n = len(self.pending)
-        c = 0
-        if n > 1:
-            raw = self.tape[self.pos] if self.pos < len(self.tape) else 0
-            self.pos += 1
-            c = raw % n
-            self.env.log("choice", pool=self.pool_no, what="thread_next", n=n, c=c)
-            self.env.stats["choices"] += 1
-        th = self.pending.pop(c)
-        th._sim_state = "running"
-        self.env.stats["sched_steps"] += 1
-        self.order.append(th._sim_no)
-        try:
-            th.run()
-        except SystemExit:
-            pass
-        except BaseException as exc:  # noqa: BLE001 - as threading.excepthook: reported, the thread ends
-            self.env.log("thread_exception", exc=type(exc).__name__)
-        finally:
-            th._sim_state = "done"
-        return True
-
-    def join(self, th: Any) -> None:
-        while getattr(th, "_sim_state", None) == "pending":
-            self.step()
-
-    def drain(self) -> None:
-        while self.step():
-            pass
-        if self.pool_no is not None and self.order:
-            order = self.order
-            self.env.log("schedule", pool=self.pool_no, digest=hashlib.sha256(json.dumps(order).encode()).hexdigest()[:16],
-                         n_chunks=len(order), in_order=(order == sorted(order)), proxy_calls=0, interleaved=False)
-        self.pool_no = None
-        self.order = []
-        self.n_started = 0
